@@ -86,6 +86,7 @@ type Invocation struct {
 	Fault    *Fault
 	Args     []ArgRec
 	Outs     []int // inst ids
+	SharedOuts int // outputs that are the very object of an earlier output (Reg.SameObj)
 }
 
 const (
